@@ -52,11 +52,34 @@ pub fn run() -> i32 {
     let seed = ctx.seed;
     let ids = ids(seed);
     let cs = ctxs(seed);
-    ctx.rule = "full product: subkey length every 0..=80 x ~80 subkey ids (0,1,2,255,256,2^32-1,2^32,2^63,2^64-1, seeded, two byte-order patterns, one non-zero byte at each of the 8 positions, every single-bit id) x 8 contexts (incl. interior and leading zero bytes) x 5 master keys; lengths 16..=64 must equal libsodium byte for byte, all other lengths must return Err (no panic); within each master key all outputs for distinct (id, context, length) must be pairwise distinct and no shorter output may be a prefix of a longer one; the 32-byte column also through Kdf::derive_subkey / derive_subkey_to_vec / from_parts; every accepted cell is dumped for the independent Python BLAKE2b reference; non-trivial = cell executed in dryoc and libsodium".into();
+    ctx.rule = "every length 65..=1100 and 2^k +- 64 (k <= 20) must be rejected; full product: subkey length every 0..=80 x ~80 subkey ids (0,1,2,255,256,2^32-1,2^32,2^63,2^64-1, seeded, two byte-order patterns, one non-zero byte at each of the 8 positions, every single-bit id) x 8 contexts (incl. interior and leading zero bytes) x 5 master keys; lengths 16..=64 must equal libsodium byte for byte, all other lengths must return Err (no panic); within each master key all outputs for distinct (id, context, length) must be pairwise distinct and no shorter output may be a prefix of a longer one; the 32-byte column also through Kdf::derive_subkey / derive_subkey_to_vec / from_parts; every accepted cell is dumped for the independent Python BLAKE2b reference; non-trivial = cell executed in dryoc and libsodium".into();
     ctx.assume("reference 1 libsodium crypto_kdf_derive_from_key; reference 2 Python hashlib.blake2b(digest_size=len, key, salt=id||0, person=ctx||0) over the dumped corpus");
     let corpus_path = format!("{}/logs/c12_corpus.jsonl", VERIF_ROOT);
     let _ = std::fs::create_dir_all(format!("{}/logs", VERIF_ROOT));
     let corpus = std::sync::Mutex::new(std::io::BufWriter::new(std::fs::File::create(&corpus_path).expect("corpus")));
+    // lengths far outside the range (a length carried through a narrow integer comes back into
+    // range): every length 65..=1100 and the powers of two +- 64 up to 2^20
+    {
+        let mut lens: Vec<usize> = (65..=1100).collect();
+        for k in 11..=20 {
+            for d in 0..=64usize {
+                lens.push((1usize << k) + d);
+                lens.push((1usize << k) - d);
+            }
+        }
+        let key: [u8; 32] = karr(seed ^ 0x12, 3);
+        let st = par_units(&lens, |&len, st| {
+            for id in [0u64, 7] {
+                let got = derive(len, id, b"lencheck", &key);
+                let ok = got == Ok(None);
+                st.eval(&("far-length", len, id), true, if ok { "kdf-rejects-length" } else { "kdf-length-not-rejected" });
+                if !ok {
+                    st.fail(Fail { check: "C12.kdf".into(), signature: "C12/derive/length-not-rejected/far".into(), what: format!("subkey length {} (id {}): {:?}", len, id, got.map(|g| g.map(|x| short(&x)))), case: json!({"len": len, "id": id, "ctx": hx(b"lencheck"), "key": hx(&key)}) });
+                }
+            }
+        });
+        ctx.absorb("far-lengths", st);
+    }
     let units: Vec<usize> = (0..5).collect();
     let st = par_units(&units, |&ki, st| {
         let key: [u8; 32] = karr(seed ^ 0x12, ki);
